@@ -169,14 +169,23 @@ Proof.
     (eapply P_keep; [..|eapply allch_get; eauto]; cbn; try reflexivity; apply map_nil_of_nil).
 Qed.
 
+Lemma G_wake_all s c h : allch P s -> allch P (wake_all_of_chan s c h).
+Proof.
+  intros H. unfold wake_all_of_chan. apply allch_upd_chan; auto.
+  intros ch0 Hch0. eapply P_keep; [..|exact Hch0]; cbn; try reflexivity. apply map_nil_of_nil.
+Qed.
+
+Lemma G_wake_consumers cfg s c h : allch P s -> allch P (wake_consumers cfg s c h).
+Proof.
+  intros H. unfold wake_consumers. pose proof (G_wake_all s c h H) as H1.
+  destruct (cfg_rabbit cfg); auto. destruct (get_conn _ c) as [cn|]; auto.
+  apply fold_left_preserves; auto. intros s0 x H0. destruct (fst x =? h); auto. apply G_wake_all; auto.
+Qed.
+
 Lemma G_dec_qos cfg s c h u : allch P s -> allch P (dec_qos_and_consume_next cfg s c h u).
 Proof.
   intros H. unfold dec_qos_and_consume_next. destruct (get_chan s c h) as [ch|]; auto.
-  destruct (find_consumer ch (u_ctag u)).
-  - destruct (wake_consumer s c h (u_ctag u)) as [s1 b] eqn:Ew.
-    assert (H1 : allch P s1) by (replace s1 with (fst (wake_consumer s c h (u_ctag u))) by (rewrite Ew; reflexivity); apply G_wake; auto).
-    sc.
-  - sc.
+  apply G_wake_consumers. sc.
 Qed.
 
 Lemma G_chan_ackmsg s u : allch P s -> allch P (chan_ackmsg s u).
@@ -228,6 +237,7 @@ Proof. unfold emptyat. intros. cbn. auto. Qed.
 Definition CI_wake := G_wake chinvp chinvp_keep.
 Definition CI_consumer_stop := G_consumer_stop chinvp chinvp_keep.
 Definition CI_dec_qos := G_dec_qos chinvp chinvp_keep.
+Definition CI_wake_consumers := G_wake_consumers chinvp chinvp_keep.
 Definition CI_handle_reject := G_handle_reject chinvp chinvp_keep chinvp_del.
 Definition CI_handle_ack := G_handle_ack chinvp chinvp_keep chinvp_del.
 
@@ -338,20 +348,11 @@ Proof.
                                              u_qid := qid_of (upd_chan s3 c h (fun ch => ch <| ch_dtag := d |>)) (c_queue cm); u_msg := u |})); auto ].
 Qed.
 
-Lemma CI_rr_scan n : forall cnt s qn, CI s -> CI (rr_scan n cnt s qn).
-Proof.
-  induction n as [|n IH]; intros cnt s qn H; simpl; auto.
-  destruct (get_queue s qn) as [qu|]; auto. destruct (negb (q_active qu)); auto.
-  set (s1 := set_queue s qn _). assert (H1 : CI s1) by (subst s1; same_conns; auto). clearbody s1.
-  destruct (nth_error _ _) as [[[c h] tag]|]; auto.
-  destruct (wake_consumer s1 c h tag) as [s2 b] eqn:Ew. apply fst_pair in Ew. subst s2.
-  destruct b; [apply CI_wake; auto|apply IH; apply CI_wake; auto].
-Qed.
-
 Lemma CI_queue_loop_turn s qn : CI s -> CI (queue_loop_turn s qn).
 Proof.
   intros H. unfold queue_loop_turn. destruct (get_queue s qn) as [qu|]; auto. destruct (negb (q_call qu)); auto.
-  destruct (Nat.eqb _ 0); [same_conns; auto|]. apply CI_rr_scan. same_conns. auto.
+  destruct (Nat.eqb _ 0); [same_conns; auto|]. same_conns.
+  apply fold_left_preserves; [|same_conns; auto]. intros s0 [[c h] tag] H0. apply CI_wake; auto.
 Qed.
 
 Lemma CI_add_confirm s c h t : CI s -> CI (add_confirm s c h t).
@@ -425,7 +426,7 @@ Proof.
     destruct (vhost_delete_queue _ s q ifunused ifempty) as [[s1 e1] r1]. cbn [fst] in *.
     destruct r1; exact Hd.
   - (* MQos *)
-    cbn [fst]. destruct (cfg_rabbit cfg); [destruct glob; (set_keep Hch H; auto)|].
+    cbn [fst]. apply CI_wake_consumers. destruct (cfg_rabbit cfg); [destruct glob; (set_keep Hch H; auto)|].
     destruct glob; [|set_keep Hch H; auto]. destruct (get_conn s c) eqn:Ec; auto. eapply allch_set_conn_qos; eauto.
   - (* MPublish *)
     destruct imm; [exact H|]. destruct (alookup _ _ _); [|exact H].
